@@ -219,6 +219,13 @@ func c13Items() []c13Item {
 	} {
 		out = append(out, c13Item{id: us.id, v: us.v, kind: us.kind, class: "fhir." + strings.ToLower(us.kind) + ".us"})
 	}
+	// quantities whose unit is empty or only human readable: still quantities, not Booleans or numbers
+	for _, q := range []struct{ id, n, u string }{{"q1-emptyunit", "1", ""}, {"q0-emptyunit", "0", ""}, {"q1.0-emptyunit", "1.0", ""}, {"q0.00-emptyunit", "0.00", ""}, {"q2-emptyunit", "2", ""}} {
+		out = append(out, c13Item{id: q.id, v: system.MustParseQuantity(q.n, q.u), kind: "Quantity", class: "qty.emptyunit"})
+	}
+	for _, q := range []struct{ id, n string }{{"f.qty.unitonly.1", "1"}, {"f.qty.unitonly.0", "0"}, {"f.qty.unitonly.0.00", "0.00"}, {"f.qty.unitonly.2", "2"}} {
+		out = append(out, c13Item{id: q.id, v: &dtpb.Quantity{Value: &dtpb.Decimal{Value: q.n}, Unit: fhir.String("tablet")}, kind: "Quantity", class: "fhir.qty.unitonly"})
+	}
 	// elements that carry no value (only an id, an extension, a unit): whatever toT
 	// makes of them, convertsToT has to agree and the result has to be a T
 	ext := []*dtpb.Extension{{Url: fhir.URI("http://u"), Value: &dtpb.Extension_ValueX{Choice: &dtpb.Extension_ValueX_StringValue{StringValue: fhir.String("x")}}}}
@@ -280,6 +287,10 @@ func c13Items() []c13Item {
 				}
 			}
 		}
+	}
+	// spellings another number base would read differently: FHIRPath integers are base ten, a leading zero is just a zero
+	for _, nb := range []string{"08", "09", "010", "0017", "+08", "-010", "0x1F", "0X1f", "0b11", "0o17", "1_000", "1e2", "0x"} {
+		add("num.base", nb)
 	}
 	for _, b := range []string{"true", "false", "t", "f", "yes", "no", "y", "n", "TRUE", "False", "Yes", "T", "F", "tru", "on", "off", "2", "1.00"} {
 		add("bool", b)
